@@ -370,8 +370,49 @@ def _int_case(c):
     return [], ("ok", round(float(ref[0]), 9))
 
 
+def _paths_case(c):
+    """every built-in class: the scalar implementation, single calls, a batch call and the vectorised implementation agree on a small
+    point lattice (fresh object per path, so that no path is answered from the cache another path filled)"""
+    name, d, start, end = c["class"], c["d"], c["start"], c["end"]
+    key = {"class": name}
+    fac, kind = _class_menu()[name]
+    if fac(d) is None:
+        return [], ("not_offered",)
+    ts = [0.3, 0.8] if d == 3 else [0.0, 0.3, 0.55, 1.0]
+    P = [tuple(float(start[k] + t * (end[k] - start[k])) for k, t in enumerate(tt)) for tt in itertools.product(ts, repeat=d)]
+    f0 = fac(d)[0]
+    try:
+        ref = np.array([np.asarray(f0.eval(p), dtype=float).reshape(-1) for p in P])
+    except (AssertionError, ValueError, ZeroDivisionError):
+        return [], ("refused",)
+    scale = max(1.0, float(np.max(np.abs(ref))))
+    fails = []
+
+    def cmp(what, got):
+        got = np.asarray(got, dtype=float).reshape(len(P), -1)
+        if got.shape != ref.shape or not (np.max(np.abs(got - ref)) <= 1e-12 * scale):
+            i = int(np.argmax(np.max(np.abs(got - ref), axis=1))) if got.shape == ref.shape else 0
+            fails.append(fail("evaluation_paths_agree", "%s(d=%d): %s at %r gives %r, the scalar implementation %r" % (name, d, what, P[i], got[i].tolist() if got.shape == ref.shape else got.shape, ref[i].tolist()), dict(key, path=what.split()[0])))
+    f1 = fac(d)[0]
+    cmp("single calls", [np.asarray(f1(p), dtype=float).reshape(-1) for p in P])
+    f2 = fac(d)[0]
+    cmp("batch call", f2(list(P)))
+    cmp("single calls after the batch", [np.asarray(f2(p), dtype=float).reshape(-1) for p in P])
+    f3 = fac(d)[0]
+    try:
+        v = f3.eval_vectorized(np.array(P, dtype=float))
+    except (NotImplementedError, AttributeError):
+        v = None
+    if v is not None:
+        cmp("eval_vectorized on a 2-D array", v)
+    return fails, ("ok", len(P))
+
+
 def run_case(case):
     c = case["config"]
+    if c["kind"] == "paths":
+        fails, out = _paths_case(c)
+        return {"failures": fails, "canon": core.config_key(c), "outcome": out, "nontrivial": out[0] == "ok", "evals": 4}
     if c["kind"] == "seq":
         fails, n = _seq_case(c)
         return {"failures": fails, "canon": core.config_key(c), "outcome": (n, len(fails)), "nontrivial": True, "evals": n}
@@ -393,6 +434,8 @@ def cases(tier):
                 continue
             for s, e in _boxes(d, kind, tier):
                 out.append({"config": {"kind": "int", "class": name, "d": d, "start": s, "end": e}})
+            for s, e in _boxes(d, kind, "quick")[:2]:
+                out.append({"config": {"kind": "paths", "class": name, "d": d, "start": s, "end": e}})
             if d <= 2:
                 for bt in ("ndarray", "tuple"):
                     for s, e in _boxes(d, kind, "quick"):
@@ -407,18 +450,19 @@ def main(ctx):
     nseq = 0
     for case, res in zip(cs, results):
         c = case["config"]
-        ctx.absorb(case, res, group=("seq_" + c["function"]) if c["kind"] == "seq" else ("int_" + c["class"]))
+        ctx.absorb(case, res, group=("seq_" + c["function"]) if c["kind"] == "seq" else (("paths_" if c["kind"] == "paths" else "int_") + c["class"]))
         if c["kind"] == "seq":
             nseq += res["evals"]
     ctx.add_sample({"function": "linear", "sequence": ["batch_p2_p2_p3", "reset", "single_p2_list", "size"]})
     ctx.add_sample([c for c in cs if c["config"]["kind"] == "int"][40])
     ctx.add_sample([c for c in cs if c["config"]["kind"] == "int"][-3])
     ctx.bounds = {"operation_sequences": nseq, "sequence_depth": 4 if ctx.tier == "quick" else 5, "alphabet": OPS, "functions": FUNCS_A,
-                  "integral_cases": sum(1 for c in cs if c["config"]["kind"] == "int"), "classes": sorted(_class_menu())}
+                  "integral_cases": sum(1 for c in cs if c["config"]["kind"] == "int"), "evaluation_path_cases": sum(1 for c in cs if c["config"]["kind"] == "paths"), "classes": sorted(_class_menu())}
     return ctx.finish(
         rule="(a) every operation sequence of the stated depth over the 11-operation alphabet on 12 real Function objects (one case = "
              "all completions of a 2-operation prefix; evaluations = sequences), lock-step with the reference model after every "
-             "step; (b) complete lattice class x d x box with corners in {0,1/4,1/2,1}^d plus boxes off the unit cube",
+             "step; (b) complete lattice class x d x box with corners in {0,1/4,1/2,1}^d plus boxes off the unit cube; (c) for every class of the menu and "
+             "d <= 3 the four evaluation paths (scalar eval, single calls, batch call, eval_vectorized) on a point lattice of two boxes, fresh object per path",
         assumptions=["counter compared only while caching is on", "numerical oracle: composite tensor Gauss-Legendre (24 points per smooth "
                      "piece, 14 in 3D), cells split at kinks/discontinuities; FunctionExpVar after the substitution x=t^d; "
                      "FunctionDiagonalDiscont by nested exact integration of the clipped inner length",
